@@ -256,12 +256,29 @@ func c14RunOnce(e *core.Env, c *c14Case) {
 		}
 	}
 	spec := core.RunSpec{Args: []string{c.Argv}, Dir: c.Dir, WallSec: c14WallSec}
+	if c14WithLog(c) {
+		// a fifth of the cases run with -log: where diagnostics go must not depend on it (stderr still carries
+		// the positioned message, the exit status is the same)
+		spec.Args = []string{"-log", c.Argv}
+	}
 	if strings.HasPrefix(c.S.InjectClass, "corpus/import-c") {
 		// the harness runs the tool with cgo switched off (the file would simply be ignored by go list);
 		// these cases are about the cgo path
 		spec.Env = []string{"CGO_ENABLED=1"}
 	}
 	c.Run = e.Run(spec)
+}
+
+// c14WithLog selects the cases that run with -log (by a checksum of the case id, plain argument form only).
+func c14WithLog(c *c14Case) bool {
+	if c.Argv != "setup.go" {
+		return false
+	}
+	h := 0
+	for _, b := range []byte(c.S.ID) {
+		h = h*31 + int(b)
+	}
+	return (h&0x7fffffff)%5 == 0
 }
 
 // c14RerunAlone repeats a CPU-suspect run alone under a 60 s CPU budget (RLIMIT_CPU via ulimit -t).
@@ -487,6 +504,9 @@ func RunC14(e *core.Env) int {
 			fmt.Fprintf(dump, "%s\t%s\t%s\texit=%d\tcpu=%dms\t%s\n", s.ID, s.InjectClass, oc, c.Run.Exit, c.Run.CPU.Milliseconds(), core.Trunc(c14FirstDiag(c.Run.Stderr), 160))
 		}
 		rep.Histo("outcome", oc)
+		if c14WithLog(c) {
+			rep.Count("cases_run_with_log", 1)
+		}
 		rep.Histo("group/outcome", s.Features["group"]+" -> "+oc)
 		if oc != "inconclusive" {
 			rep.Distinct(s.InjectClass + " => " + oc)
